@@ -105,7 +105,10 @@ impl Ssh {
                                 }
                             }
                         } else {
-                            // TODO: what should we do if it's None?
+                            // the channel is gone (closed by the peer or connection lost):
+                            // hang up, so that the receive queue closes and callers get an error
+                            tracing::info!("channel closed, hanging up");
+                            break;
                         }
                     }
                 }
